@@ -1801,7 +1801,12 @@ def run_C13(ctx):
     return res
 
 
-register("C13", run_C13, genok=["gen_templateEvoAspirate_ok", "gen_templateEvoDispense_ok", "gen_templateEvoWash_ok", "gen_tipSlots_ok",
+register("C13", run_C13, module="Robotools.Props.C13",
+         theorems=["Robotools.C13." + t for t in ("evo_cmd_agrees", "evo_names_arguments", "evo_tracking_aspirate", "evo_tracking_dispense",
+                   "accepted_expressible", "evo_rejects", "rejected_emits_no_command", "evo_wash_spec", "evo_wash_rejects_grid",
+                   "evo_wash_rejects_other")]
+                  + ["Robotools.Evo." + t for t in ("evoAD_spec", "evoSel_spec", "enumWells_eq", "sel_sorted", "evoVols_spec", "evoTipVals_spec")],
+         genok=["gen_templateEvoAspirate_ok", "gen_templateEvoDispense_ok", "gen_templateEvoWash_ok", "gen_tipSlots_ok",
                                 "gen_maxGrid_ok", "gen_maxSite_ok", "gen_maxDilutorVolume_ok", "gen_selBits_ok", "gen_selOffset_ok"],
          rule="evo_aspirate/evo_dispense/evo_wash programs on plates and troughs: wells of one column in ascending order with shuffled distinct tips, scalar and per-tip volumes; one fault per invalid call (order, repeats, columns, ranges, lengths)")
 
